@@ -2067,8 +2067,12 @@ impl PeerConnection {
             handles.push(handle);
         }
 
+        // The guard must exist before the future is first polled: a future
+        // that is dropped unpolled (its owner was cancelled right after the
+        // transports came up) would otherwise just detach the tasks.
+        let guard = LoopsGuard(handles);
         Box::pin(async move {
-            let _guard = LoopsGuard(handles);
+            let _guard = guard;
             done.notified().await;
         })
     }
